@@ -51,11 +51,12 @@ Proof.
 Qed.
 Print Assumptions C07_copyprop_as_coded_refuted.
 
-(* the second defect of the analysis the pass relies on: the target of a `for` *)
-Theorem C07_copyprop_for_target_refuted :
-  changes [("f", wF)] "f" copyprop_as_coded [znum 1; CList [znum 10; znum 20]].
-Proof. exact copyprop_for_target_refuted. Qed.
-Print Assumptions C07_copyprop_for_target_refuted.
+(* a second defect, of the analysis the pass relies on (the target of a `for`), repaired in /repo by
+   1bc6253: the statement is about the pass as it was before (`copyprop_unrepaired`) *)
+Theorem C07_copyprop_for_target_unrepaired_refuted :
+  changes [("f", wF)] "f" copyprop_unrepaired [znum 1; CList [znum 10; znum 20]].
+Proof. exact copyprop_for_target_unrepaired_refuted. Qed.
+Print Assumptions C07_copyprop_for_target_unrepaired_refuted.
 
 (* the guarded version: the equality x = y is used only where neither x nor y
    has been redefined since the copy (straight-line code, branches, loops,
@@ -119,15 +120,17 @@ Proof. exact constfold_list_refuted. Qed.
 Print Assumptions C07_constfold_list_refuted.
 
 (* ---------------------------------------------------------------- dead-code elimination *)
-Theorem C07_dce_as_coded_refuted :
-  changes [("g2", g2); ("f", wB)] "f" (dce_as_coded [("g2", g2); ("f", wB)]) [CList [znum 5; znum 6]; znum 1].
-Proof. exact dce_as_coded_refuted. Qed.
-Print Assumptions C07_dce_as_coded_refuted.
+(* the pass as it was before the repairs 1107ce1 / bb63c4e (`dce_unrepaired`); `dce_as_coded` is the
+   pass as it is in /repo now, and leaves these witnesses alone (dce_as_coded_keeps_witnesses) *)
+Theorem C07_dce_unrepaired_refuted :
+  changes [("g2", g2); ("f", wB)] "f" (dce_unrepaired [("g2", g2); ("f", wB)]) [CList [znum 5; znum 6]; znum 1].
+Proof. exact dce_unrepaired_refuted. Qed.
+Print Assumptions C07_dce_unrepaired_refuted.
 
-Theorem C07_dce_purity_as_coded_refuted :
-  changes [("g", galias); ("f", wC)] "f" (dce_as_coded [("g", galias); ("f", wC)]) [CList [znum 5; znum 6]].
-Proof. exact dce_purity_as_coded_refuted. Qed.
-Print Assumptions C07_dce_purity_as_coded_refuted.
+Theorem C07_dce_purity_unrepaired_refuted :
+  changes [("g", galias); ("f", wC)] "f" (dce_unrepaired [("g", galias); ("f", wC)]) [CList [znum 5; znum 6]].
+Proof. exact dce_purity_unrepaired_refuted. Qed.
+Print Assumptions C07_dce_purity_unrepaired_refuted.
 
 Theorem C07_validate_dce_sound : forall (N : numops) (P : program) (d : nat) (f f' : ident) (fn fn' : func),
   validate_dce d fn fn' = true -> lookup_fn P f = Some fn -> lookup_fn P f' = None ->
